@@ -273,6 +273,13 @@ class IkeSa(object):
                            ''.format(self.peer_msg_id, message.message_id))
             return None
 
+        # the peer may start its own exchanges as soon as it has sent its IKE_AUTH response, and such a request can
+        # overtake that response on the network. Until this IKE_SA is established it is dropped (it will be retransmitted)
+        if (message.exchange_type in (Message.Exchange.CREATE_CHILD_SA, Message.Exchange.INFORMATIONAL)
+                and self.state < IkeSa.State.ESTABLISHED):
+            self.log_warning(f'Received a {message.exchange_type.name} request before the IKE_SA is established. Omitting.')
+            return None
+
         try:
             handler = _handler_dict[message.exchange_type]
         except KeyError:
